@@ -712,7 +712,112 @@ pub fn c13_case(rng: &mut Rng, len_lo: usize, len_hi: usize, with_q: bool, spars
     out
 }
 
+/// C13 on declarative histories (generator families incl. the congruence chain): at random points all handles are compared and
+/// equal pairs recorded (which canonicalises them), at other points nothing is touched; at the end every recorded equality must
+/// still hold and every old handle must canonicalise to a live class whose slots are a subset of what was seen before.
+pub fn c13_hist_case(rng: &mut Rng) -> CaseOut {
+    let mut out = CaseOut::default();
+    let lang = &LSYM;
+    let ns = rng.range(2, 3);
+    let cfg = GenCfg { lang, ops: SYM_OPS_BASIC.to_vec(), ns, max_depth: 2, max_names: 4, shadow: rng.chance(1, 3) };
+    let h = gen_history(rng, &cfg, 6, 5);
+    let text = h.text(lang);
+    let cj = h.json(lang);
+    let mut eg: EGraph<LSym> = EGraph::default();
+    let mut ids: BTreeMap<usize, AppliedId> = BTreeMap::new();
+    let mut recorded: Vec<(usize, usize, usize)> = vec![];
+    let mut seen_slots: BTreeMap<usize, BTreeSet<Slot>> = BTreeMap::new();
+    let p_observe = rng.below(4); // 0: never in between .. 3: often
+    for (step, op) in h.ops.iter().enumerate() {
+        let r = guard(|| match op {
+            HOp::Add(i) => {
+                let id = eg.add_expr(crate::sym::to_rec::<LSym>(lang, &h.terms[*i]));
+                ids.insert(*i, id);
+                None
+            }
+            HOp::Union(a, b) => {
+                for t in [a, b] {
+                    if !ids.contains_key(t) {
+                        let id = eg.add_expr(crate::sym::to_rec::<LSym>(lang, &h.terms[*t]));
+                        ids.insert(*t, id);
+                    }
+                }
+                let (x, y) = (ids[a].clone(), ids[b].clone());
+                eg.union(&x, &y);
+                Some((*a, *b))
+            }
+        });
+        match r {
+            Err(_) => {
+                out.inconclusive = Some("operation panicked (reported by C02/C08)".into());
+                return out;
+            }
+            Ok(Some((a, b))) => recorded.push((a, b, step)), // the asserted pair is equal from now on (not queried now)
+            Ok(None) => {}
+        }
+        let last = step + 1 == h.ops.len();
+        if last || rng.below(4) < p_observe {
+            let keys: Vec<usize> = ids.keys().copied().collect();
+            let r = guard(|| -> Result<(), (String, String)> {
+                for (a, b, at) in &recorded {
+                    if !eg.eq(&ids[a], &ids[b]) {
+                        return Err(("equality-lost".into(), format!("after step {step} ({}): {} = {} held after step {at} and is not reported any more", text[step], h.terms[*a].text(lang, &pname), h.terms[*b].text(lang, &pname))));
+                    }
+                }
+                for k in &keys {
+                    let f = eg.find_applied_id(&ids[k]);
+                    if !eg.is_alive(f.id) || f.m.keys() != eg.slots(f.id) {
+                        return Err(("old-handle-not-canonical".into(), format!("after step {step}: the handle of {} canonicalises to {f:?}, class slots {:?}", h.terms[*k].text(lang, &pname), eg.slots(f.id))));
+                    }
+                    let now: BTreeSet<Slot> = f.slots().iter().copied().collect();
+                    if let Some(old) = seen_slots.get(k) {
+                        if !now.is_subset(old) {
+                            return Err(("slots-grew".into(), format!("after step {step}: {} had slots {old:?}, now {now:?}", h.terms[*k].text(lang, &pname))));
+                        }
+                    }
+                    seen_slots.insert(*k, now);
+                }
+                Ok(())
+            });
+            out.inc("observation_points");
+            match r {
+                Ok(Ok(())) => {}
+                Ok(Err((sig, d))) => {
+                    out.fail(Fail::new("monotonicity", sig, d, cj));
+                    return out;
+                }
+                Err(p) => {
+                    out.fail(Fail::panic("old-handle-panics", &p, &format!("observation after step {step}"), cj));
+                    return out;
+                }
+            }
+            // newly equal pairs are recorded as well
+            for (x, a) in keys.iter().enumerate() {
+                for b in keys.iter().skip(x + 1) {
+                    if recorded.len() < 60 && eg.eq(&ids[a], &ids[b]) && !recorded.iter().any(|r| (r.0, r.1) == (*a, *b)) {
+                        recorded.push((*a, *b, step));
+                    }
+                }
+            }
+        }
+    }
+    out.add("equal_pairs_recorded", recorded.len() as u64);
+    out.inc("declarative_histories");
+    if h.families.contains(&"congruence-chain") {
+        out.inc("family_congruence_chain");
+    }
+    if recorded.len() >= 2 {
+        out.nontrivial = Some(h.hash(lang));
+    }
+    out.sample = Some(J::obj(vec![("mode", J::s("declarative-history")), ("history", J::arr_s(&text)), ("observe_probability_quarters", J::I(p_observe as i64))]));
+    out
+}
+
 pub fn run(args: &Args, rep: &mut Rep) {
+    if args.prop == "C13" && args.param_u("hist", 0) == 1 {
+        drive(args, rep, |rng, _| c13_hist_case(rng));
+        return;
+    }
     match args.prop.as_str() {
         "C12" => {
             let n = args.param_u("orders", 4) as usize;
